@@ -95,3 +95,34 @@ func Verif_C19_params() {
 	}
 	V.Assert(vRec.target.Equal(net.ParseIP(V.Param("wantAddr"))), "C19/address")
 }
+
+// Verif_C19_request: the whole library entry point (the real RunTraceroute -> runTracerouteMulti -> runTracerouteOnce
+// -> parseTarget), one query, no e2e probes, with the port given by the job (boundary values: a symbolic port goes
+// through integer-to-string-to-integer conversions and does not finish in 10 minutes): the request is either
+// rejected, or the runner was handed exactly that port - the default 33434 standing in for 0 only - and the result
+// document names the same port. Negative ports and ports above 65535 are never replaced by something else.
+func Verif_C19_request() {
+	vInstallRunnerHooks()
+	port := V.ParamInt("port", 0)
+	p := TracerouteParams{Hostname: "198.51.100.7", Port: port, Protocol: V.Param("protocol"), MinTTL: 1, MaxTTL: 3,
+		Delay: 10, Timeout: time.Second, TCPMethod: TCPMethod(V.Param("method")), TracerouteQueries: 1}
+	t := Traceroute{publicIPFetcher: &vFetcher{}}
+	res, err := t.RunTraceroute(context.Background(), p)
+	if err != nil {
+		V.Reach("rejected")
+		V.Assert(res == nil, "C19/no-result-with-error")
+		V.Assert(V.Any(port < 0, port > 65535), "C19/representable-port-not-rejected")
+		return
+	}
+	V.Reach("accepted")
+	V.Assert(V.All(port >= 0, port <= 65535), "C19/unrepresentable-value-rejected")
+	want := port
+	if port == 0 {
+		want = 33434
+	}
+	if vRec.kind != "icmp" {
+		V.Assert(vRec.port == want, "C19/port")
+	}
+	V.Assert(res.Destination.Port == want, "C19/reported-port")
+	V.Assert(vRec.calls == 1, "C19/one-runner")
+}
